@@ -326,7 +326,7 @@ func runC12(cfg *vh.Config) error {
 			if r.Chance(12) {
 				scope = "all"
 			}
-			props = append(props, genProp(r, fmt.Sprintf("f%d", i), scope, env))
+			props = append(props, genProp(r, propName(r, i), scope, env))
 		}
 		// declarations expected not to compile go alone; so do those with an
 		// ill-formed pattern (they make every message of their type unvalidatable,
